@@ -2998,6 +2998,9 @@ func (s *ImmuStore) ReplicateTx(ctx context.Context, exportedTx []byte, skipInte
 		if len(v) > 0 && v[0] > 1 {
 			return nil, ErrIllegalTruncationArgument
 		}
+		if len(v) == 0 {
+			return nil, ErrIllegalTruncationArgument
+		}
 		isTruncated = v[0] == 1
 		i += tLen
 	}
